@@ -123,8 +123,29 @@ theorem indexNameValue_spec {c0 : IndexCtx} {f : Nat} {rest : List Nat} (nv : PT
           obtain ⟨hf, hr⟩ := h2 name loc ha
           obtain ⟨l1, l2, l3⟩ := loc_in_node ws hr
           exact ⟨hf, by omega, l2, by omega⟩
-        · simp only [StateT.run_pure] at h; cases h
-          exact ⟨hp, fun _ _ ha => by cases ha⟩
+        · split at h
+          · dsimp only at h
+            split at h
+            · rename_i tok htok
+              split at h
+              · simp only [StateT.run_pure] at h; cases h
+                exact ⟨hp, fun _ _ ha => by cases ha⟩
+              · split at h
+                · simp only [StateT.run_bind, IxM.run_panic] at h
+                  cases h
+                · simp only [StateT.run_bind, currentFileId_run c f rest hp.trace, Except.ok_bind,
+                    StateT.run_pure] at h
+                  cases h
+                  refine ⟨hp, fun name loc ha => ?_⟩
+                  cases ha
+                  have hr' : Ast.identifierRange sv = some (tok.start, tok.stop) := by
+                    unfold Ast.identifierRange; rw [htok]; rfl
+                  obtain ⟨l1, l2, l3⟩ := identifierRange_bounds ws hr'
+                  exact ⟨rfl, by simp only; omega, by simp only; omega, by simp only; omega⟩
+            · simp only [StateT.run_pure] at h; cases h
+              exact ⟨hp, fun _ _ ha => by cases ha⟩
+          · simp only [StateT.run_pure] at h; cases h
+            exact ⟨hp, fun _ _ ha => by cases ha⟩
       · simp only [StateT.run_pure] at h; cases h
         exact ⟨hp, fun _ _ ha => by cases ha⟩
     · simp only [StateT.run_pure] at h; cases h
@@ -218,8 +239,9 @@ theorem indexDef_o (n : PTree) (hn : Shaped n) : StmtSpec ws0 n (Index.indexDef 
           simp only [Option.isNone_some]
           refine Triple.bind (PAt.neutral (addRecordLocal_n _) _) fun _ => ?_
           exact (PAt.neutral (by keeps) _).reseat (Nat.le_refl _) hn.wf.le
-    · exact (Triple.pure _).mono_post fun _ hc => hc.mono hn.wf.le
-  · exact (PAt.neutral (by keeps) _).reseat (Nat.le_refl _) hn.wf.le
+    · exact (PAt.neutral (by keeps) _).reseat (Nat.le_refl _) hn.wf.le
+  · simp only [pure_bind]
+    exact (PAt.neutral (by keeps) _).reseat (Nat.le_refl _) hn.wf.le
 
 theorem indexDefset_o (n : PTree) (hn : Shaped n) (hk : n.kind = .Defset) :
     StmtSpec ws0 n (Index.indexDefset r n) := by
